@@ -298,7 +298,7 @@ def content_bytes(spec):
 
 entry_draw = st.tuples(
     st.integers(0, 10 ** 6),                                                       # parent selector
-    st.sampled_from(['file'] * 6 + ['dir'] * 3 + ['symlink'] * 2 + ['twin'] * 2),
+    st.sampled_from(['file'] * 6 + ['dir'] * 3 + ['symlink'] * 2 + ['twin'] * 2 + ['cousin', 'replname']),
     name_st,
     st.tuples(st.sampled_from(['uniq'] * 5 + ['empty'] * 2 + ['dup', 'dup', 'neardup', 'neardup', 'collA', 'collB', 'big']),
               st.sampled_from([1, 3, 5, 7, 100, 2047, 2048, 2049, 5000]),
@@ -382,6 +382,31 @@ def build_case(d):
     for idx, (psel, kind, name, cdraw, tdraw) in enumerate(d['entries']):
         name = fit_name(name, opts, avoided)
         parent = dirs[psel % len(dirs)]
+        if kind in ('cousin', 'replname'):
+            # 'cousin': a sibling that shares the first five characters and the extension with an existing entry (so that
+            # the replacement names PREFI000.EXT ... of two collision groups come from one pool), added together with a
+            # colliding twin of its own; 'replname': a sibling literally named like such a replacement name
+            cands = [e for e in tree if e['kind'] != 'symlink' and (opts['boot'] is None or e['path'] != opts['boot']['file'])]
+            if cands:
+                orig = cands[psel % len(cands)]
+                parent, _, oname = orig['path'].rpartition('/')
+                stem, dot, ext = oname.rpartition('.')
+                if not dot or not stem:
+                    stem, dot, ext = oname, '', ''
+                okind = 'dir' if orig['kind'] == 'dir' else 'file'
+                if kind == 'cousin':
+                    name = fit_name((stem[:5] + 'x' * max(0, 5 - len(stem[:5])) + 'more%d' % (tdraw[2] % 3)) + dot + ext, opts, avoided)
+                    tw = fit_name(twin_name(name, tdraw[2]), opts, avoided)
+                    if okind == 'dir':
+                        add(join(parent, tw), 'dir')
+                    elif add(join(parent, tw), 'file', content={'seed': idx + 500000, 'size': 7}):
+                        files.append({'seed': idx + 500000, 'size': 7})
+                else:
+                    up = ''.join(c if (c.isascii() and (c.isalnum() or c == '_')) else '_' for c in stem.upper())[:5]
+                    name = '%s%03d' % (up, tdraw[2] % 2) + ((dot + ext.upper()[:3]) if okind == 'file' else '')
+                kind = okind
+            else:
+                kind = 'file'
         if kind == 'twin':
             # a sibling whose name collides with an existing entry's name after ISO9660 mangling
             cands = [e for e in tree if opts['boot'] is None or e['path'] != opts['boot']['file']]
